@@ -79,6 +79,9 @@ def cases(draw):
             e['pending'] = e['pending'] + ['ch']
     case = {'mode': mode, 'endings': endings, 'P_ms': P, 'L_ms': L, 'msg': draw(st.booleans()),
             'frag': frag, 'lease': lease}
+    if lease and draw(st.booleans()):
+        # the client grants leases too: its publisher has one ready on every subscription, i.e. for every connection
+        case['client_grants'] = True
     if not lease and draw(st.integers(0, 4)) == 0:
         # somebody (a supervisor, a network-change hook) asks for a reconnect while the very first connect() is still waiting for
         # its transport's handshake: there is nothing to reconnect yet, the first connection has to come up as usual
@@ -109,6 +112,8 @@ def build(case):
            # (not combined with requests issued during the reconnect: that schedule is the D13 finding of C16)
            'connect': [None] + [['ticks', e['connect_suspend']] if e.get('connect_suspend') and not e.get('during') else None
                                 for e in case['endings']]}
+    if case.get('client_grants'):
+        cfg['client_lease_publisher'] = 'eager'
     if case['mode'] == 'on_close':
         cfg['on_close_reconnect'] = True
     if case['mode'] == 'on_ka_timeout':
@@ -247,6 +252,8 @@ def judge(case):
                     out.append(viol('pending_subscriber_not_failed', 'C17:pending_not_failed:%s:%s' % (spec['k'], e['kind']),
                                     uid=uid, **facts))
         frames = [x for x in sends if x.get('cx') == new]
+        if case.get('client_grants') and not any(x['f']['type'] == 'LEASE' for x in frames):
+            out.append(viol('lease_not_granted_on_new_connection', 'C17:no_lease_granted:%s' % e['kind'], **facts))
         opened_here = set()
         for x in frames:
             f = x['f']
